@@ -744,7 +744,7 @@ type c14 struct{}
 func init() { register(c14{}) }
 
 func (c14) ID() string           { return "C14" }
-func (c14) Runs(tier string) int { return tierLen(tier, 500, 2500) }
+func (c14) Runs(tier string) int { return tierLen(tier, 1500, 4000) }
 
 func (c14) Gen(r *kern.Rng, tier string, idx int) *Trace {
 	maxLen := tierLen(tier, 200000, 600000)
